@@ -12,6 +12,10 @@ import re
 from rustcut import Source, AnchorLost, code_mask, match_brace, replace_idents
 
 
+def norm_ws(t):
+    return ' '.join(t.split())
+
+
 class Item:
     def __init__(self, kind, name, text, path, line, header=None, body=None, owner=None):
         self.kind = kind          # 'fn' | 'const' | 'type' | 'raw'
@@ -232,6 +236,16 @@ def extract(repo):
         items.append(Item('const', mm.group(1), rw(init).strip(), rel('parser.rs'), parser.line_of(s)))
         pos = e + 1
 
+    # ---- parser.rs: plain integer constants (e.g. MAX_DEPTH), verbatim
+    pos = 0
+    while True:
+        mm = parser.find_header(r'^const\s+([A-Z_0-9]+)\s*:\s*(usize|u32|u8|u16|u64)\s*=', 0, pos)
+        if not mm:
+            break
+        s, e = parser.cut_semi(r'^const\s+([A-Z_0-9]+)\s*:\s*(usize|u32|u8|u16|u64)\s*=', 0, mm.start())
+        items.append(Item('type', mm.group(1), rw(parser.text[s:e + 1]), rel('parser.rs'), parser.line_of(s)))
+        pos = e + 1
+
     # ---- parser.rs: types
     for nm, pat in (('Event', r'^enum Event\b'), ('MarkOpened', r'^struct MarkOpened\b'),
                     ('MarkClosed', r'^struct MarkClosed\b'), ('Parser', r'^struct Parser\b')):
@@ -286,7 +300,21 @@ def extract(repo):
             it.body = it.body[:mm.start()] + it.body[mm.end():]
     items.extend(hoisted)
 
-    return {'items': items, 'variants': variants, 'tokens': tokens, 'anchors': anchors,
+    # ---- parse_module: only the `Parser { .. }` literal is taken (for the generated top-level lemma)
+    s_, o_, c_ = parser.cut_braced(r'^pub fn parse_module\b', 0)
+    pm = parser.text[o_:c_ + 1]
+    lm = re.search(r'let\s+mut\s+p\s*=\s*(Parser\s*\{)', pm)
+    if not lm:
+        raise AnchorLost('parse_module: `let mut p = Parser { .. }` not found')
+    bo = o_ + lm.end(1) - 1
+    bc = match_brace(parser.text, parser.mask, bo)
+    parser_literal = rw(parser.text[o_ + lm.start(1):bc + 1])
+    tail = norm_ws(parser.text[bc + 1:c_])
+    if tail != '; module(&mut p); p.build_tree()':
+        raise AnchorLost('parse_module: tail is not `module(&mut p); p.build_tree()` but %r' % tail)
+
+    return {'parser_literal': parser_literal, 'parser_literal_line': parser.line_of(o_ + lm.start(1)),
+            'items': items, 'variants': variants, 'tokens': tokens, 'anchors': anchors,
             'impl_parser_header': impl_header, 'dropped': dropped}
 
 
